@@ -27,25 +27,25 @@ theorem exec_ite (c : Prop) [Decidable c] (a b : Py.MS σ α) (s : σ) :
     (if c then a else b).exec s = if c then a.exec s else b.exec s := by split <;> rfl
 end exec
 
-theorem exec_name (s : DomainS.Self) : py_DomainS_name.exec s = (.ok s._name, s) := rfl
-theorem exec_length (s : DomainS.Self) : py_DomainS_length.exec s = (.ok s._length, s) := rfl
-theorem exec_len (s : DomainS.Self) : py_DomainS_len.exec s = (.ok s._length, s) := rfl
+theorem exec_name (s : DomainSM.Self) : py_DomainSM_name.exec s = (.ok s._name, s) := rfl
+theorem exec_length (s : DomainSM.Self) : py_DomainSM_length.exec s = (.ok s._length, s) := rfl
+theorem exec_len (s : DomainSM.Self) : py_DomainSM_len.exec s = (.ok s._length, s) := rfl
 
-theorem exec_truth (s : DomainS.Self) : py_DomainS_truth.exec s = (.ok (decide (s._length ≠ 0)), s) := rfl
+theorem exec_truth (s : DomainSM.Self) : py_DomainSM_truth.exec s = (.ok (decide (s._length ≠ 0)), s) := rfl
 
-theorem exec_dtype (cutoff : Nat) (s : DomainS.Self) :
-    (py_DomainS_dtype cutoff).exec s = (.ok (if s._length ≤ cutoff then "short" else "long"), s) := by
-  unfold py_DomainS_dtype
+theorem exec_dtype (cutoff : Nat) (s : DomainSM.Self) :
+    (py_DomainSM_dtype cutoff).exec s = (.ok (if s._length ≤ cutoff then "short" else "long"), s) := by
+  unfold py_DomainSM_dtype
   simp only [exec_bind, exec_length, exec_pure]
   by_cases h : s._length ≤ cutoff <;> simp [h] <;> rfl
 
 /-- `name[-1] == '*'`: IndexError for the empty name, else whether the last character is a star -/
-theorem exec_is_complement (s : DomainS.Self) :
-    py_DomainS_is_complement.exec s =
+theorem exec_is_complement (s : DomainSM.Self) :
+    py_DomainSM_is_complement.exec s =
       (match s._name.toList.getLast? with
        | none => .error (.fault "IndexError")
        | some c => .ok (c == '*'), s) := by
-  unfold py_DomainS_is_complement
+  unfold py_DomainSM_is_complement
   simp only [exec_bind, exec_name, exec_lift, exec_monadLift, Py.strLast]
   cases s._name.toList.getLast? <;> rfl
 
@@ -57,12 +57,12 @@ theorem isStarred_of_last (n : String) (c : Char) (h : n.toList.getLast? = some 
     rw [this]; simpa using hc
 
 /-- `cname` as written is the model's `cnameOf` (IndexError for the empty name) -/
-theorem exec_cname (s : DomainS.Self) :
-    py_DomainS_cname.exec s =
+theorem exec_cname (s : DomainSM.Self) :
+    py_DomainSM_cname.exec s =
       (match s._name.toList.getLast? with
        | none => .error (.fault "IndexError")
        | some _ => .ok (cnameOf s._name), s) := by
-  unfold py_DomainS_cname
+  unfold py_DomainSM_cname
   simp only [exec_bind, exec_is_complement]
   cases h : s._name.toList.getLast? with
   | none => rfl
@@ -70,21 +70,21 @@ theorem exec_cname (s : DomainS.Self) :
     simp only [exec_ite, exec_bind, exec_name, exec_pure, cnameOf, isStarred_of_last _ c h, Py.strDropLast]
     by_cases hc : (c == '*') = true <;> simp [hc] <;> rfl
 
-theorem exec_complement (request : String → Nat → Py.M Nat) (s : DomainS.Self) :
-    (py_DomainS_complement request).exec s =
+theorem exec_complement (request : String → Nat → Py.M Nat) (s : DomainSM.Self) :
+    (py_DomainSM_complement request).exec s =
       (match s._name.toList.getLast? with
        | none => .error (.fault "IndexError")
        | some _ => request (cnameOf s._name) s._length, s) := by
-  unfold py_DomainS_complement
+  unfold py_DomainSM_complement
   simp only [exec_bind, exec_cname]
   cases h : s._name.toList.getLast? with
   | none => rfl
   | some c =>
     simp only [exec_length, exec_lift, exec_monadLift, exec_pure]
 
-theorem exec_invert (request : String → Nat → Py.M Nat) (s : DomainS.Self) :
-    (py_DomainS_invert request).exec s = (py_DomainS_complement request).exec s := by
-  unfold py_DomainS_invert
+theorem exec_invert (request : String → Nat → Py.M Nat) (s : DomainSM.Self) :
+    (py_DomainSM_invert request).exec s = (py_DomainSM_complement request).exec s := by
+  unfold py_DomainSM_invert
   simp only [exec_bind, exec_pure]
 
 end Dsd.PyMembersL
